@@ -139,7 +139,10 @@ def locate_item(rel, kind, name, within=None, nth=1):
                     raise last_err
                 raise WeaveError(f"{rel}: enclosing block `{within}` not found")
             b = k + len(w)
-            if toks[b].text != "{":
+            # the header text may be a prefix (long generic headers): run on to the block's `{`
+            while b < len(toks) and toks[b].text not in ("{", ";", "}"):
+                b += 1
+            if b >= len(toks) or toks[b].text != "{":
                 start = k + 1
                 continue
             try:
